@@ -215,3 +215,15 @@ Section Crypto.
   Definition udp_datagram (key nonce meta pad1 payload pad2 : list N) body : list N :=
     nonce ++ segment_wire key nonce nonce meta pad1 payload pad2 body.
 End Crypto.
+
+(* ---------------------------------------------------------------- UDP server session: which key seals a reply *)
+
+(* pkg/protocol/session.go, Session.input: every authentic segment that reaches the session stores the cipher block
+   that opened it (s.block.Store(&seg.block)); PacketUnderlay.writeOneSegment seals every datagram the session
+   generates with the stored block.  K is the type of keys; the state is the stored block (None before the first
+   segment). *)
+Section ReplyKey.
+  Variable K : Type.
+  Definition sess_input (st : option K) (k : K) : option K := Some k.
+  Definition sess_run (st : option K) (ks : list K) : option K := fold_left sess_input ks st.
+End ReplyKey.
